@@ -323,3 +323,119 @@ def reaching_defs(fi, var):
 
     block(fi.node.body, frozenset([0]))
     return out
+
+
+# ------------------------------------------------------------------ module-level state (memo caches): history independence
+MUTABLE_CTORS = {"dict", "list", "set", "collections.OrderedDict", "collections.defaultdict", "OrderedDict", "defaultdict"}
+DIGESTS = ("tobytes", "hash(", "hashlib", "digest", "tostring", "data.tobytes", "id(")
+
+
+def module_state_rule(repo, modshort, rule="STATE"):
+    """results of a module's functions may depend on module-level mutable state only through a cache whose key determines the
+    cached value: every parameter the stored value depends on must reach the key (scalars by value, arrays/dicts by a content digest)"""
+    m = repo.mod(modshort)
+    conts = {}
+    for s in m.tree.body:
+        if isinstance(s, ast.Assign) and len(s.targets) == 1 and isinstance(s.targets[0], ast.Name):
+            v = s.value
+            if isinstance(v, (ast.Dict, ast.List, ast.Set)) or (isinstance(v, ast.Call) and dotted(v.func) in MUTABLE_CTORS):
+                conts[s.targets[0].id] = s
+    out = []
+    role = "results do not depend on what earlier calls left in module-level state"
+    used = []
+    for f in m.funcs.values():
+        local = {n.id for n in ast.walk(f.node) if isinstance(n, ast.Name) and isinstance(n.ctx, ast.Store)} | set(f.params)
+        for n in walk_no_nested(f.node):
+            if isinstance(n, ast.Name) and n.id in conts and n.id not in local:
+                used.append((f, n))
+    lru = [f for f in m.funcs.values() if any((dotted(d.func) if isinstance(d, ast.Call) else dotted(d)) in
+                                              ("functools.lru_cache", "lru_cache", "functools.cache", "cache") for d in f.node.decorator_list)]
+    if not used and not lru:
+        anyf = next(iter(m.funcs.values()))
+        return [holds(rule, anyf.qual.rsplit(".", 1)[0] + ".<module>", role, "no module-level mutable container is read or written by any function of tangermeme/%s.py" % modshort.replace(".", "/"),
+                      nontrivial=False)]
+    pm_cache = {}
+    for f, n in used:
+        pm = pm_cache.setdefault(f.qual, parent_map(f.node))
+        p = pm.get(n)
+        # writes: D[k] = v
+        if isinstance(p, ast.Subscript) and isinstance(p.ctx, ast.Store):
+            st = pm.get(p)
+            while st is not None and not isinstance(st, ast.stmt):
+                st = pm.get(st)
+            if isinstance(st, ast.Assign):
+                kdeps = _param_deps(f, p.slice)
+                vdeps = _param_deps(f, st.value)
+                ktext = _slice_text(f, p.slice)
+                missing = sorted(vdeps - kdeps)
+                if missing:
+                    out.append(violation(rule, f, role, "`%s[...]` memoises a value that depends on parameter(s) %s but the key `%s` ignores them: a later "
+                                         "call with different %s gets the stale entry" % (n.id, missing, unparse(p.slice)[:50], missing[0]), st,
+                                         witness={"cache": n.id, "value_depends_on": sorted(vdeps), "key_depends_on": sorted(kdeps)}))
+                    continue
+                arrays = [q for q in sorted(vdeps) if not _scalar_param(f, q)]
+                weak = [q for q in arrays if not any(d in ktext for d in DIGESTS)]
+                if weak:
+                    out.append(violation(rule, f, role, "`%s[...]` is keyed by names / shapes of `%s` only (no content digest): same-named inputs with different "
+                                         "values share an entry" % (n.id, weak[0]), st, witness={"cache": n.id, "key": ktext[:120]}))
+                    continue
+                out.append(holds(rule, f, role, "cache `%s`: key covers %s" % (n.id, sorted(vdeps)), st))
+        elif isinstance(p, ast.Attribute) and p.attr in ("append", "extend", "update", "setdefault", "add", "insert", "pop", "clear"):
+            out.append(violation(rule, f, role, "module-level `%s` is mutated by `.%s(...)`: later calls observe earlier ones" % (n.id, p.attr), n))
+    for f in lru:
+        out.append(unrecognised(rule, f, role, "functools cache on `%s`: key = arguments by hash; re-confirm that arguments are value-hashable" % f.name))
+    if not out:
+        f, n = used[0]
+        out.append(holds(rule, f, role, "module-level containers are only read", n, nontrivial=False))
+    return out
+
+
+def _slice_text(f, e):
+    """key expression with single-definition locals inlined"""
+    class T(ast.NodeTransformer):
+        def visit_Name(self, n):
+            d = single_def(f, n.id)
+            return T().visit(copy.deepcopy(d)) if d is not None and depth[0] < 6 else n
+    import copy
+    depth = [0]
+    return unparse(T().visit(copy.deepcopy(e)))
+
+
+def _param_deps(f, e, _seen=None):
+    """parameters an expression depends on (variable-level backward slice through the function's assignments)"""
+    seen = set() if _seen is None else _seen
+    deps = set()
+    todo = [n.id for n in ast.walk(e) if isinstance(n, ast.Name)]
+    defs = {}
+    for s in walk_no_nested(f.node):
+        if isinstance(s, ast.Assign):
+            for t in s.targets:
+                for x in ast.walk(t):
+                    if isinstance(x, ast.Name) and isinstance(x.ctx, ast.Store):
+                        defs.setdefault(x.id, []).append(s.value)
+        elif isinstance(s, ast.AugAssign) and isinstance(s.target, ast.Name):
+            defs.setdefault(s.target.id, []).append(s.value)
+        elif isinstance(s, (ast.For, ast.comprehension)):
+            for x in ast.walk(s.target):
+                if isinstance(x, ast.Name):
+                    defs.setdefault(x.id, []).append(s.iter)
+    while todo:
+        v = todo.pop()
+        if v in seen:
+            continue
+        seen.add(v)
+        if v in f.params:
+            deps.add(v)
+        for d in defs.get(v, []):
+            for n in ast.walk(d):
+                if isinstance(n, ast.Name) and n.id not in seen:
+                    todo.append(n.id)
+    return deps
+
+
+def _scalar_param(f, p):
+    d = f.defaults.get(p)
+    if isinstance(d, ast.Constant) and isinstance(d.value, (int, float, bool, str)):
+        return True
+    k = f.docparams().get(p, {}).get("kind")
+    return k in ("int", "bool") or "float" in f.docparams().get(p, {}).get("type", "")
